@@ -514,3 +514,28 @@ func (p *Prog) DeepFieldProvCallers(v ssa.Value) string {
 	}
 	return "{" + strings.Join(labels, "|") + "}"
 }
+
+// SameDeep reports whether a and b denote the same object once helper
+// parameters, helper results and set-once fields of builder objects are
+// looked through: both have deep sources and the sets coincide.
+func (p *Prog) SameDeep(a, b ssa.Value) bool {
+	if SameValue(a, b) {
+		return true
+	}
+	sa, sb := p.DeepSources(a, 3, true), p.DeepSources(b, 3, true)
+	if len(sa) == 0 || len(sa) != len(sb) {
+		return false
+	}
+	for _, x := range sa {
+		found := false
+		for _, y := range sb {
+			if x == y {
+				found = true
+			}
+		}
+		if !found {
+			return false
+		}
+	}
+	return true
+}
